@@ -73,6 +73,11 @@ def loadOp : Nat → Option (LKind × Nat)
   | 20 => some (.dword, 1) | 21 => some (.dword, 2) | 22 => some (.dword, 3) | 23 => some (.dword, 4)
   | _ => none
 
+/-- FLAT load opcodes `runFlat` of the emulator ALUs has a case for: all of `loadOp` after the repair;
+    before it opcodes 19 (sshort) and 22 (dwordx3) were missing (the timing side always had them) -/
+def emuHasLoad (opc : Nat) : Bool := (loadOp opc).isSome
+def emuHasLoadOld (opc : Nat) : Bool := (loadOp opc).isSome && opc != 19 && opc != 22
+
 def sext8 (b : Nat) : Nat := if b ≥ 128 then b + 4294967040 else b
 def sext16 (h : Nat) : Nat := if h ≥ 32768 then h + 4294901760 else h
 
@@ -141,14 +146,28 @@ def loadStraddles (k : LKind) (ls : Nat) (accs : List Acc) : Bool :=
 
 def byteOf (w b : Nat) : Nat := w / 256 ^ b % 256
 
-/-- byte writes in the emulator's order: lane ascending, then address ascending;
-    key = line of the dword the byte belongs to (the request the coalescer merges it into) -/
-def storeW (ls cnt : Nat) (act : List (Nat × Nat)) (data : Nat → Nat → Nat) : List Wr :=
-  (accesses act cnt).flatMap fun x =>
-    (List.range 4).map fun b => ⟨lineOf ls x.addr, (0, x.addr + b), byteOf (data x.lane x.j) b⟩
+/-- store opcode → (bytes written per data register, register count): `runFlatStore*` /
+    `instRegCount` + `storeByteSize`. -/
+def storeOp : Nat → Option (Nat × Nat)
+  | 24 => some (1, 1) | 26 => some (2, 1)
+  | 28 => some (4, 1) | 29 => some (4, 2) | 30 => some (4, 3) | 31 => some (4, 4)
+  | _ => none
 
-def emuStore (ls cnt : Nat) (act : List (Nat × Nat)) (data : Nat → Nat → Nat) (m : St) : St :=
-  applyW (storeW ls cnt act data) m
+/-- the coalescer before the repair merged the whole data dword for byte and short stores too -/
+def storeOpTimingOld : Nat → Option (Nat × Nat)
+  | 24 => some (4, 1) | 26 => some (4, 1)
+  | 28 => some (4, 1) | 29 => some (4, 2) | 30 => some (4, 3) | 31 => some (4, 4)
+  | _ => none
+
+/-- byte writes in the emulator's order: lane ascending, then address ascending; `bw` = bytes written
+    per data register (1, 2 or 4);
+    key = line of the dword the byte belongs to (the request the coalescer merges it into) -/
+def storeW (ls bw cnt : Nat) (act : List (Nat × Nat)) (data : Nat → Nat → Nat) : List Wr :=
+  (accesses act cnt).flatMap fun x =>
+    (List.range bw).map fun b => ⟨lineOf ls x.addr, (0, x.addr + b), byteOf (data x.lane x.j) b⟩
+
+def emuStore (ls bw cnt : Nat) (act : List (Nat × Nat)) (data : Nat → Nat → Nat) (m : St) : St :=
+  applyW (storeW ls bw cnt act data) m
 
 def storeLines (ls cnt : Nat) (act : List (Nat × Nat)) : List Nat :=
   dedup ((accesses act cnt).map fun x => lineOf ls x.addr)
@@ -156,19 +175,23 @@ def storeLines (ls cnt : Nat) (act : List (Nat × Nat)) : List Nat :=
 /-- the write request for line `k` is the sub-list of byte writes merged into it, in merge
     order (Data = last byte per offset, DirtyMask = touched offsets: `summ`); the memory applies
     the requests in the order `ord` -/
-def timingStore (ls cnt : Nat) (act : List (Nat × Nat)) (data : Nat → Nat → Nat) (ord : List Nat)
+def timingStore (ls bw cnt : Nat) (act : List (Nat × Nat)) (data : Nat → Nat → Nat) (ord : List Nat)
     (m : St) : St :=
-  grouped (storeW ls cnt act data) ord m
+  grouped (storeW ls bw cnt act data) ord m
 
-/-- `addressRangeMustFallInReq` panics when a dword runs over the end of the line -/
-def storeStraddles (ls cnt : Nat) (act : List (Nat × Nat)) : Bool :=
-  (accesses act cnt).any fun x => decide (x.addr % ls + 4 > ls)
+/-- `addressRangeMustFallInReq` panics when the stored bytes run over the end of the line -/
+def storeStraddles (ls bw cnt : Nat) (act : List (Nat × Nat)) : Bool :=
+  (accesses act cnt).any fun x => decide (x.addr % ls + bw > ls)
 
 /-- Data/DirtyMask view of a request: `summ ws c = some b` iff offset c is dirty with byte b -/
 def summ (ws : List Wr) : Nat × Nat → Option Nat := lastW ws
 def applyReq (s : Nat × Nat → Option Nat) (m : St) : St := fun c => (s c).getD (m c)
 
 /-! ## SMEM loads -/
+
+/-- `(base + offset) &^ 3`: the two low bits of a scalar-load address are ignored (both modes, after
+    the repair; before it both used the raw sum) -/
+def smemAddr (a : Nat) : Nat := a / 4 * 4
 
 def le32 (m : Nat → Nat) (a : Nat) : Nat :=
   m a + 256 * m (a + 1) + 65536 * m (a + 2) + 16777216 * m (a + 3)
@@ -196,10 +219,13 @@ def emuSmem (reg start n : Nat) (m : Nat → Nat) (s : St) : St := applyW (smemE
 /-- RegCount = len/4 = 0 is turned into 1 by the register file, which then slices 4 bytes -/
 def smemFaults (cs : List (Nat × Nat)) : Bool := cs.any fun c => decide (c.2 < 4)
 
-/-- opcode → bytes in the emulator (x1..x16) and in timing (x1..x8) -/
+/-- opcode → bytes in the emulator (x1..x16) and in timing (`executeSMEMInst`: x1..x16 after the
+    repair; `smemTimingBytesOld` = before it, no case for opcode 4) -/
 def smemEmuBytes : Nat → Option Nat
   | 0 => some 4 | 1 => some 8 | 2 => some 16 | 3 => some 32 | 4 => some 64 | _ => none
 def smemTimingBytes : Nat → Option Nat
+  | 0 => some 4 | 1 => some 8 | 2 => some 16 | 3 => some 32 | 4 => some 64 | _ => none
+def smemTimingBytesOld : Nat → Option Nat
   | 0 => some 4 | 1 => some 8 | 2 => some 16 | 3 => some 32 | _ => none
 
 /-! ## outstanding-access counter -/
@@ -438,8 +464,7 @@ def handleLd (t : List String) : String :=
       let act := active exec (laneAddr exec vals (sa = 1) sbase imm)
       let accs := accesses act cnt
       let lines := loadLines ls accs
-      let e := if opc = 19 ∨ opc = 22 then "unsupported"
-               else deltaStr (emuLoadW k dst ls m accs) prefill
+      let e := if emuHasLoad opc then deltaStr (emuLoadW k dst ls m accs) prefill else "unsupported"
       let txs := joinWith "," (lines.map fun ln => s!"{toHex ln}:{(txnLanes ls accs ln).length}")
       let tws := (pickOrd lines ord).flatMap fun ln => retW valOf k dst ls m ln (txnLanes ls accs ln)
       let tt := if loadStraddles k ls accs then "fault:bounds" else deltaStr tws prefill
@@ -450,18 +475,19 @@ def handleSt (t : List String) : String :=
   match kvNat? t "opc", kvNat? t "lg", kvHex? t "exec", kvNat? t "sa", kvHex? t "sbase",
         kvHex? t "imm", kvNat? t "seed", hexList? ((kv? t "a").getD ""), natList? ((kv? t "ord").getD "") with
   | some opc, some lg, some exec, some sa, some sbase, some imm, some seed, some vals, some ord =>
-    if opc < 28 ∨ opc > 31 then "bad" else
-      let cnt := opc - 27
+    match storeOp opc with
+    | none => "bad"
+    | some (bw, cnt) =>
       let ls := 2 ^ lg
       let act := active exec (laneAddr exec vals (sa = 1) sbase imm)
-      let ws := storeW ls cnt act (dataWord seed)
+      let ws := storeW ls bw cnt act (dataWord seed)
       let lines := storeLines ls cnt act
       let e := runsStr ws
       let txs := joinWith "," (lines.map fun ln =>
         let r := ws.filter (fun w => w.key = ln)
         s!"{toHex ln}:{(cellsOf r).length}")
       let tws := (pickOrd lines ord).flatMap fun ln => ws.filter (fun w => w.key = ln)
-      if storeStraddles ls cnt act then s!"E {e} | T fault:explicit"
+      if storeStraddles ls bw cnt act then s!"E {e} | T fault:explicit"
       else s!"E {e} | T txns={txs} {runsStr tws}"
   | _, _, _, _, _, _, _, _, _ => "bad"
 
@@ -473,9 +499,10 @@ def sregStr (ws : List Wr) : String :=
 def handleSm (t : List String) : String :=
   match kvNat? t "opc", kvNat? t "lg", kvNat? t "sdst", kvHex? t "start", kvNat? t "seed",
         natList? ((kv? t "ord").getD "") with
-  | some opc, some lg, some reg, some start, some seed, some ord =>
+  | some opc, some lg, some reg, some start0, some seed, some ord =>
     let ls := 2 ^ lg
     let m := memByte seed
+    let start := smemAddr start0
     let e := match smemEmuBytes opc with
       | some n => sregStr (smemEmuW reg start n m)
       | none => "unsupported"
